@@ -73,7 +73,7 @@ pub struct Scenario {
 // generation
 
 fn git_cmd(r: &mut Rng) -> Cmd {
-    let sub = *r.pick(&["version", "version", "flow"]);
+    let sub = *r.pick(&["version", "flow"]);
     let mut argv: Vec<String> = vec![sub.to_string()];
     let cwd = match r.below(4) {
         0 => "$REPO".to_string(),
@@ -281,6 +281,32 @@ fn expects_single_line(argv: &[String]) -> bool {
     matches!(fmt, "semver" | "pep440")
 }
 
+fn is_help(argv: &[String]) -> bool {
+    argv.iter().any(|a| a == "-h" || a == "--help" || a == "--llm-help" || a == "-V" || a == "--version")
+}
+
+fn expects_ron(argv: &[String]) -> bool {
+    let sub = argv.first().map(|s| s.as_str()).unwrap_or("");
+    matches!(sub, "version" | "flow" | "render")
+        && !is_help(argv)
+        && arg_value(argv, &["--output-template", "--template"]).is_none()
+        && !argv.iter().any(|a| a.starts_with("--output-prefix"))
+        && arg_value(argv, &["--output-format"]) == Some("zerv")
+}
+
+/// the template, when the command renders one whose values cannot contain a newline
+/// (only for the git-sourced commands the engine builds itself: overrides can inject one)
+fn plain_template(argv: &[String]) -> Option<&str> {
+    let sub = argv.first().map(|s| s.as_str()).unwrap_or("");
+    if !matches!(sub, "version" | "flow") || is_help(argv) {
+        return None;
+    }
+    if argv.iter().any(|a| a.starts_with("--output-prefix") || a.starts_with("--bumped-") || a.starts_with("--custom") || a.starts_with("--tag-version") || a.starts_with("--source")) {
+        return None;
+    }
+    arg_value(argv, &["--output-template"]).filter(|t| ["{{ semver }}", "{{ bumped_branch }}-{{ distance }}", "{{ pep440 }}+{{ bumped_commit_hash_short }}"].contains(t))
+}
+
 /// The per-child oracle of C13.
 pub fn judge_child(o: &Outcome, argv: &[String], case: &str, trace_len: usize) -> Option<Violation> {
     let full_err = o.err_str();
@@ -322,11 +348,22 @@ pub fn judge_child(o: &Outcome, argv: &[String], case: &str, trace_len: usize) -
         return mk("no-panic", "no panic", format!("{} stderr={}", o.status_str(), short(&panic_excerpt(&err), 400)));
     }
     if o.ok() {
+        let s = o.out_str();
         if expects_single_line(argv) {
-            let s = o.out_str();
             let one_line = s.ends_with('\n') && s.matches('\n').count() == 1 && s.len() > 1;
             if !one_line {
                 return mk("result-only", "exactly one line on stdout", format!("{:?}", short(&s, 300)));
+            }
+        } else if expects_ron(argv) {
+            // the whole of stdout must be one Zerv RON document
+            if let Err(e) = crate::zron::parse(&s) {
+                return mk("result-only", "stdout is exactly one Zerv RON document", format!("{e}; stdout={:?}", short(&s, 300)));
+            }
+        } else if let Some(t) = plain_template(argv) {
+            // a template without newlines renders to exactly one line (git-derived values cannot contain one)
+            let lines = s.matches('\n').count();
+            if lines != t.matches('\n').count() + 1 {
+                return mk("result-only", "as many lines as the template has", format!("{:?}", short(&s, 300)));
             }
         }
         None
